@@ -41,6 +41,8 @@ UNIT_HARNESS = {
     'auenc': ('io_harness.rs', 'auenc'),
     'tcp': ('io_harness.rs', 'tcp'),
     'wpcr': ('io_harness.rs', 'wpcr'),
+    'il2p': ('io_harness.rs', 'il2p'),
+    'io': ('io_harness.rs', 'il2p,s2pdu,wpcr'),
 }
 
 
